@@ -310,26 +310,32 @@ class AppEnv:
 
 
     def add_legacy_names_stream(self, directory: str = 'lgcy', prefix: str = 'lgc') -> None:
-        """A stream whose MediaFile rows are named with the file extension ("lgc_v7.mp4"), the form
-        older databases hold and the media routes still resolve; Representation ids (and so the URLs of a
-        manifest) are the stems."""
+        """A stream whose MediaFile rows are named with the file extension ("lgc_v720p.mp4"), the form
+        older databases hold and the media routes still resolve; the files are indexed under those names,
+        so Representation ids (and the URLs of a manifest) are the stems. The stems end in characters that
+        also occur in the extension (p, m, 4)."""
         files = {}
-        for stem in ('bbb_v7', 'bbb_a1', 'bbb_v7_enc', 'bbb_a1_enc'):
-            files[stem.replace('bbb', prefix)] = FIXTURES / 'bbb' / f'{stem}.mp4'
-        spk = self.add_stream(directory, title='Stream with legacy media names', files=files)
+        for name, stem in ((f'{prefix}_v720p', 'bbb_v7'), (f'{prefix}_a1m', 'bbb_a1'),
+                           (f'{prefix}_v7_enc4', 'bbb_v7_enc'), (f'{prefix}_a1_enc', 'bbb_a1_enc')):
+            files[name] = FIXTURES / 'bbb' / f'{stem}.mp4'
+        spk = self.add_stream(directory, title='Stream with legacy media names', files=files, index=False)
         models = self.models
         with self.app.app_context():
             stream = models.Stream.get(pk=spk)
-            ref = None
             for mf in stream.media_files:
+                self.stored[(directory, mf.name)] = self.stored.get((directory, mf.name))
                 mf.name = f'{mf.name}.mp4'
-                if mf.content_type == 'video' and ref is None and not mf.encrypted:
-                    ref = mf
             models.db.session.commit()
+            for mf in stream.media_files:
+                mf.parse_media_file()
+            models.db.session.commit()
+            models.db.session.remove()
+            stream = models.Stream.get(pk=spk)
+            ref = next(mf for mf in sorted(stream.media_files, key=lambda m: m.name)
+                       if mf.content_type == 'video' and not mf.encrypted)
             stream.timing_reference = ref.as_stream_timing_reference()
             models.db.session.commit()
             models.db.session.remove()
-
 
     def add_dotted_names_stream(self, directory: str = 'dots') -> int:
         """A stream whose media file names contain dots (uploads keep the dots of a file name:
